@@ -37,7 +37,7 @@ def _rolevar(ctx):
     return leaf
 
 
-def run_table(ctx, pair, nshare, renamed):
+def run_table(ctx, pair, nshare, renamed, keeper=False):
     from oslo_policy import policy
     common.set_ctx(ctx)
     new_cs, old_cs = PAIRS[pair]
@@ -59,6 +59,14 @@ def run_table(ctx, pair, nshare, renamed):
             name=oldname or n, check_str=old_cs,
             deprecated_reason='because', deprecated_since='N')
         defaults.append(policy.RuleDefault(n, c, deprecated_rule=dep))
+    if keeper and renamed:
+        # a sibling that keeps the predecessor's name (same-name deprecation
+        # of 'old'), registered first
+        depk = policy.DeprecatedRule(
+            name='old', check_str=old_cs, deprecated_reason='because',
+            deprecated_since='N')
+        defaults.insert(0, policy.RuleDefault('old', 'role:kp',
+                                              deprecated_rule=depk))
     file_rules = {}
     if new_ov:
         # override only the last of the sharing policies, so that with
@@ -93,7 +101,8 @@ def run_table(ctx, pair, nshare, renamed):
                            enforce_new_defaults=end)
         import re
         used = sorted(set(re.findall(r'role:(\w+)', ' '.join(
-            list(cs.values()) + [old_cs] + list(file_rules.values())))))
+            list(cs.values()) + [old_cs, 'role:kp'] +
+            list(file_rules.values())))))
         creds = {'roles': ctx.roles('creds', used)}
         leaf = _rolevar(ctx)
         # -- oracle ---------------------------------------------------------
@@ -133,6 +142,15 @@ def run_table(ctx, pair, nshare, renamed):
                 pending.remove(n)
         dont_care_old_equal = (old_text is not None and
                                old_text == old_cs)
+        if keeper and renamed and old_text is None:
+            # the keeper itself: nothing overrides it
+            f_k = boolang.text_formula('role:kp', leaf)
+            f_o = boolang.text_formula(old_cs, leaf)
+            want_k = f_k if end else z3.Or(f_k, f_o)
+            got_k = common.decision(ctx, enf, 'old', creds)
+            common.require_decision(ctx, got_k, want_k, 'table:keeper',
+                                    detail={'pair': PAIRS[pair]})
+            ctx.cover('keeper')
         for n in news:
             want = eff.get(n)
             if want is None or dont_care_old_equal or not z3.is_bool(want):
@@ -169,13 +187,15 @@ def cubes_table(tier, seed):
         for ns in shares:
             for renamed in (True, False):
                 out.append({'pair': p, 'nshare': ns, 'renamed': renamed})
+            out.append({'pair': p, 'nshare': ns, 'renamed': True,
+                        'keeper': True})
     return out
 
 
 HARNESSES = {'table': {'fn': run_table, 'cubes': cubes_table}}
 REQUIRED_COVER = ['new-override-governs', 'old-override-governs', 'or-merge',
                   'new-default-only', 'row:renamed:alias-first',
-                  'row:renamed:arbitrary', 'row:same:absent']
+                  'row:renamed:arbitrary', 'row:same:absent', 'keeper']
 
 
 def evidence(tier):
